@@ -309,8 +309,8 @@ def looksLikeYamlNumber (s : List Char) : Bool :=
 
 def streamFirstIndicator (c : Char) : Bool := isIndicator c
 
-/-- `needs_yaml_quoting` -/
-def needsYamlQuoting (s : List Char) : Bool :=
+/-- `needs_yaml_quoting`.  The fix adds the `resolve_plain` check after `looks_like_yaml_number`. -/
+def needsYamlQuoting (rev : Rev) (s : List Char) : Bool :=
   match s with
   | [] => true
   | first :: _ =>
@@ -320,6 +320,7 @@ def needsYamlQuoting (s : List Char) : Bool :=
             lowerEq s "yes" || lowerEq s "no" || lowerEq s "on" || lowerEq s "off" ||
             lowerEq s ".inf" || lowerEq s "-.inf" || lowerEq s ".nan" then true
     else if looksLikeYamlNumber s then true
+    else if rev = .v1 && !(resolvePlainRs s).isStr then true
     else s.any (fun c => c.toNat < 0x20 || c = ':' || c = '#')
 
 /-- `stream_yaml_double_quoted`: escapes C0 controls only (`< 0x20`), DEL stays raw. -/
@@ -340,8 +341,8 @@ def streamYamlSingleQuoted (s : List Char) : List Char := yamlSingleQuoteEscaped
 
 /-- `stream_yaml_block_scalar_quoted` (also `stream_yaml_nonstring_key`, and `jq/stream.rs`'s
 `stream_yaml_string` apart from its `''` for the empty string). -/
-def streamSmartQuoted (s : List Char) : List Char :=
-  if needsYamlQuoting s then streamYamlDoubleQuoted s else s
+def streamSmartQuoted (rev : Rev) (s : List Char) : List Char :=
+  if needsYamlQuoting rev s then streamYamlDoubleQuoted s else s
 
 /-- `starts_seq_entry(bytes, 0)` -/
 def startsSeqEntry (s : List Char) : Bool :=
@@ -367,7 +368,7 @@ def streamStringValue (rev : Rev) (st : SrcStyle) (s : List Char) : List Char :=
   | .unquoted =>
     if s = [] || s.any (fun c => c.toNat < 0x20) || startsSeqEntry s then streamYamlDoubleQuoted s
     else s
-  | .block => streamSmartQuoted s
+  | .block => streamSmartQuoted rev s
 
 /-- `chomping_indicator`: the text of the indicator. -/
 def chompingIndicator (s : List Char) : List Char :=
